@@ -73,6 +73,30 @@ Example C12_xml_doc_prefix_clash_regression :
      62; 118; 60; 47; 108; 62].
 Proof. vm_compute. repeat split. Qed.
 
+(* The namespace law of the start tags, stated on the printer itself (what the oracle comps_doc.QNamesX checks on
+   libyang's bytes with expat): [TagsOK t st n] (XmlDocP.v) says of the start tag xml_print_node() writes for n under the
+   declarations st, and of the start tags of all its descendants: no prefix is defined twice in the tag; no prefix that is
+   in the scope is defined again; the default namespace of the element is the namespace of the node's module; the prefix of
+   every metadata attribute is bound, in the scope of the element, to the namespace of the module of its annotation. It
+   holds for every node of a canonical forest from the empty scope - also when modules share a prefix (numbered prefixes).
+   (For the bytes the same follows from C12_xml_doc_std: Unique Att Spec and Prefix Declared are checked by the standard
+   reader, the namespaces of the attributes are part of its result.)
+   NOT covered, for lack of prefixed VALUES in the model: the Tree subset holds canonical strings only, so the part of
+   xml_print_term() / xml_print_meta() that defines namespaces for the prefixes INSIDE identityref / instance-identifier /
+   xpath1.0 values (e9b7253: the modules of the values of a start tag are reserved first, definitions through
+   xml_print_ns(REQUIRED), hidden definitions not reused) is vacuous here: no value module, nothing reserved, and with
+   pairwise distinct prefixes in the scope (the invariant of the proof) no definition is hidden. That part is checked by
+   QNamesX / RoundTripTypes only. *)
+Theorem C12_xml_doc_start_tags :
+  forall sch t f,
+    tabs_okb sch t = true -> Canon sch f -> Forall (DocN sch t V_std) f ->
+    Forall (TagsOK t []) f.
+Proof.
+  intros sch t f Ht HC HD. pose proof (Canon_Placed sch f HC) as HP.
+  rewrite Forall_forall in *. intros n Hn. apply (tags_ok sch t V_std Ht n None [] (HP n Hn) (HD n Hn) Inv_nil).
+Qed.
+Print Assumptions C12_xml_doc_start_tags.
+
 (* the data hypothesis "distinct metadata keys on a node" cannot be dropped either: the same annotation twice on one
    node (the JSON parser accepts a repeated member, lyd_new_meta does not check) is printed as a repeated attribute *)
 Theorem C12_xml_doc_dup_meta_refuted :
